@@ -350,11 +350,11 @@ GRID = {
            '99991231', '10000101', '2020 1 1', '202011 5', '2020A1', '+2020', '2020\n', '0000', '00000101', '1e3'],
     'TM': ['', '0', '00', '23', '24', '2359', '2360', '235959', '235960', '235961', '000000.1', '000000.1234', '000000.12345', '000000.',
            '12+0000', '12+1400', '12+1401', '12+1359', '12+1460', '12-1200', '12-1201', '12-1159', '12-1300', '12+0500+0500', '1230-0500',
-           '123015.5-0500', '12 +0500', '1 2', '12\n', '1:30', '12.5', '120000,1'],
+           '123015.5-0500', '12 +0500', '1 2', '12\n', '1:30', '12.5', '120000,1', '1234.56', '123.4', '12345.678', '1.2345'],
     'DTM': ['', '2020', '202001', '20200101', '2020010112', '202001011230', '20200101123015', '20200101123015.1', '20200101123015.1234',
             '20200101123015.12345', '2020+0100', '20200101+1400', '20200101+1401', '20200101-1200', '20200101-1201', '2020010124',
             '202001011260', '20200230', '20200101123015.1234+1400', '20200101123015.1234+0100+0100', '2012+0100+0100', '202001011', '20200101123',
-            '20200101 230', '2020\n', '2 20', '20200101123015.'],
+            '20200101 230', '2020\n', '2 20', '20200101123015.', '201307261234.5678', '2020010112345.6'],
     'SI': ['', '0', '1', '0001', '9999', '10000', '00001', '-1', '+5', ' 5', '5 ', '1_0', '1\n', 'a', '1.5', '12345'],
     'NM': ['', '0', '1', '-1', '+1', '1.5', '-0.5', '01', '007.50', '1.', '.5', '1E3', '1e3', 'NaN', 'Infinity', ' 1', '1 ', '1_0', '0.000001',
            '0.0000001', '0.0000000', '0.00000012', '-0.0000001', '0.0000000000000001', '0.00000000000001', '1234567890123456', '12345678901234567', '123456789012345.6', '-123456789012345.6', 'abc', '1.2.3', '--1', '\n1'],
